@@ -9,6 +9,7 @@ package graphql
 // guarded by reactive resources, a recording subscription logger and a writer.
 
 import (
+	"fmt"
 	"context"
 	"encoding/json"
 	"errors"
@@ -121,8 +122,12 @@ func kSchema(w *kWorld) *Schema {
 	return &Schema{Query: query, Mutation: mutation}
 }
 
+const kFailUnsafeWrapsSafe = 100 // an unmarked error wrapping a safe one: stays unsafe
+
 func kError(kind int) error {
 	switch kind {
+	case kFailUnsafeWrapsSafe:
+		return fmt.Errorf("secret context: %w", NewSafeError("safe failure"))
 	case xFailSafe:
 		return NewSafeError("safe failure")
 	case xFailClient:
